@@ -1,4 +1,4 @@
-\* BoundedPool AS IT IS (FixF4 = FALSE): TLC finds F4 - invariant C37_CloseWaits is violated (9 states).
+\* BoundedPool BEFORE /repo commit 3996f0eab (FixF4 = FALSE): TLC finds F4 - invariant C37_CloseWaits is violated (9 states).
 SPECIFICATION Spec
 CONSTANTS
   NP = 2
